@@ -802,6 +802,56 @@ fn rename_keeps_problems(s: &mut Session) {
     s.final_phase = false;
 }
 
+/// larger codes: composed frameworks of 9-13 statements (independent blocks of 1-5 statements, interleaved) submitted under both
+/// parsing strategies and solved with every strategy; TLC judges the stored answers and pictures block-wise (AdfCompose)
+fn big_codes(rng: &mut StdRng, s: &mut Session, count: usize) {
+    s.jars = vec![None; 3];
+    s.me = vec!["-".to_string(); 3];
+    s.ctrl.cmd(json!({"cmd": "reset"}));
+    s.scen = "big-codes".into();
+    s.seq = 0;
+    s.expected_updates = 0;
+    s.out.push(json!({"kind": "reset", "id": s.scen, "principals": 1}));
+    s.req(Some(0), "register", json!({"username": "bigcodes", "password": "secret-big"}));
+    s.settle(true);
+    s.req(Some(0), "login", json!({"username": "bigcodes", "password": "secret-big"}));
+    s.settle(true);
+    let mut made = 0;
+    let mut tries = 0;
+    while made < count && tries < 200 {
+        tries += 1;
+        let (case, blocks, observers) = composed_adf(rng, format!("sb{}", tries), 9, 13);
+        if !observers.is_empty() || blocks.iter().any(|b| b.len() > 4) {
+            continue; // the validator finds the blocks itself as connected components; keep them small and observer-free
+        }
+        let n = case.asts.len();
+        // few models only (every model comes with a picture of the whole diagram)
+        let text0 = case.text();
+        let parser = adf_bdd::parser::AdfParser::default();
+        if parser.parse()(&text0).is_err() { continue; }
+        let mut adf = adf_bdd::adf::Adf::from_parser(&parser);
+        if adf.complete().count() > 40 { continue; }
+        let labels: Vec<String> = (0..n).map(|i| format!("p1k{}s{}", 70 + made, i)).collect();
+        let facts = if made % 2 == 0 { canonical_facts(n) } else { shuffled_facts(rng, n) };
+        let code = render(&labels, &case.asts, &facts, &plain_layout());
+        if code.len() > 1400 { continue; }
+        let name = format!("BIG{}", made);
+        s.req(Some(0), "add", json!({"name": name, "parsing": if made % 2 == 0 { "Naive" } else { "Hybrid" }, "class": "good", "code": code}));
+        s.settle(true);
+        s.req(Some(0), "get", json!({"name": name}));
+        for st in ["Ground", "Complete", "Stable", "StableCountingA", "StableCountingB", "StableNogood"] {
+            s.req(Some(0), "solve", json!({"name": name, "strategy": st}));
+            s.settle(true);
+        }
+        s.req(Some(0), "get", json!({"name": name}));
+        made += 1;
+    }
+    s.final_phase = true;
+    s.req(Some(0), "list", json!({}));
+    s.settle(true);
+    s.final_phase = false;
+}
+
 /// two users own a problem with the SAME name; one of them runs a slow task; what does the other one see meanwhile?
 fn slow_task_scenario(s: &mut Session) {
     s.jars = vec![None; 3];
@@ -872,6 +922,7 @@ pub fn main(args: &[String]) {
     for k in 0..n {
         random_scenario(&mut rng, &mut s, k);
     }
+    big_codes(&mut rng, &mut s, if tier == "thorough" { 10 } else { 3 });
     slow_task_scenario(&mut s);
     race_rename_window(&mut s);
     race_stale_write(&mut s);
@@ -886,7 +937,7 @@ pub fn main(args: &[String]) {
         writeln!(f, "{}", r).unwrap();
     }
     f.flush().unwrap();
-    eprintln!("server: {} scenarios, {} records", n + 10, s.out.len());
+    eprintln!("server: {} scenarios, {} records", n + 11, s.out.len());
     drop(procs);
     std::process::exit(0);
 }
